@@ -284,6 +284,11 @@ func NewBareChain(net *Net, genesis types.Block, rng *rand.Rand) *Chain {
 // GenesisTime is the timestamp of every generated genesis block.
 func GenesisTime() time.Time { return genesisTime }
 
+// SetGenesisTime moves the instant at which every generated chain starts (the
+// network's Oak genesis timestamp moves along). Not safe for concurrent use;
+// checks call it between chains.
+func SetGenesisTime(t time.Time) { genesisTime = t.UTC() }
+
 // BaseNet returns the default network parameters (all forks at height 0
 // unless changed by the caller).
 func BaseNet(name string) *consensus.Network { return baseNet(name) }
